@@ -126,6 +126,11 @@ func (rww *responseWriterWrapper) WriteHeader(status int) {
 	if rww.wroteHeader {
 		return
 	}
+	if status >= 100 && status < 200 && status != http.StatusSwitchingProtocols {
+		// informational header; the response's own header is still to come
+		rww.ResponseWriterWrapper.WriteHeader(status)
+		return
+	}
 	rww.wroteHeader = true
 	// capture the original headers
 	h := rww.Header()
